@@ -130,7 +130,7 @@ reg('C05', 'other',
     'Decimal path decided by evaluation of the language functions and by the scanner\'s complete case table over decimal scripts.',
     MACHINE, T_VM + '; ' + T_LEX, 'DESIGN.md §10.2, §10.3')
 reg('C06', 'other',
-    [scanvm.rule_occurrence_wellformed, lexeval.rule_sep_mark, scanvm.rule_decimal_scanner],
+    [scanvm.rule_occurrence_wellformed, sentences.rule_occurrences_in_sentences, lexeval.rule_sep_mark, scanvm.rule_decimal_scanner],
     "V06 on every token script: spans inside the stream, strictly increasing, disjoint, begin and end on the first / last word the interpreter accepted "
     "for that number; text and value are the two halves of one formatter result for the words inside the span; the ordinal flag is that of the integer "
     "part. A5 the formatters, evaluated: digits, optional mark + digits, optional marker (es 1/n), value = reading of the digits. " + MACHINE,
@@ -138,7 +138,7 @@ reg('C06', 'other',
     MACHINE + ' Float precision of huge values is not examined (the digit text is checked, the value only through the formatter).',
     T_VM, 'DESIGN.md §10.3')
 reg('C07', 'other',
-    [lexeval.rule_reject_inert, builder.rule_fail_atomic, scanvm.rule_scanner_validator, scanvm.rule_validator_scanner],
+    [lexeval.rule_reject_inert, builder.rule_fail_atomic, scanvm.rule_scanner_validator, scanvm.rule_validator_scanner, sentences.rule_spans_validate],
     "A8b every lexicon word x builder-state x {apply, apply_decimal}: an accepted word issues exactly one builder operation, a rejected word issues none, "
     "writes no marker, does not freeze; B3 in every &mut self -> Result method of DigitString no write can be followed by an Err exit (a failed operation "
     "changes nothing); V07 the scanner's case table: spans hold accepted / linking words only and end on an accepted word, a word rejected inside a number "
